@@ -12,10 +12,20 @@ import ElvProofs.C28.TransformSpec
 import ElvProofs.C28.WordSpec
 import ElvProofs.C28.UpDownSpec
 import ElvProofs.C28.CodeAreaSpec
+import ElvProofs.C28.Bridge
 open Go C28
 
 /-- `a世b` with the dot after `a`. -/
 example : Boundary [0x61, 0xE4, 0xB8, 0x96, 0x62] 1 := by unfold Boundary; decide
+
+/-- `Boundary` is the usual Go test: on valid UTF-8, the dot is on a character
+boundary iff `0 ≤ dot ≤ len(s)` and `dot == len(s) || utf8.RuneStart(s[dot])`
+(this is how the implementation-side oracle of `./check C28` tests it). -/
+theorem C28_boundary_is_runeStart (buf : Bytes) (dot : Int) :
+    Boundary buf dot ↔
+      validUtf8 buf = true ∧ 0 ≤ dot ∧ dot ≤ buf.length ∧
+        (dot = buf.length ∨ ∃ b, buf[dot.toNat]? = some b ∧ runeStart b = true) :=
+  boundary_iff_runeStart buf dot
 
 /-- Every dot movement (left/right, the six word motions, start/end of line,
 up/down) of a valid buffer with the dot on a character boundary does not
